@@ -88,6 +88,23 @@ Definition with_app_name (name : option str) (e : environ) : environ :=
   | None => e
   end.
 
+(* before_request hooks may rewrite the environ (request['PATH_INFO'] = ..., request['REQUEST_METHOD'] = ...):
+   _handle reads request.path / request.method AFTER emit('before_request') (ombott.py:283-284), so routing,
+   the route hooks, the handler's kwargs and the HEAD test of wsgi() see the rewritten values.  The hooks
+   that run are decided by their results alone ([ran_prefix]); a failing hook's own edits come before its failure. *)
+Definition env_edit (e : environ) (m : mut) : environ :=
+  match m with
+  | MEnv false v => mkEnviron v (en_method e) (en_fw e) (en_json e) (en_url e)
+  | MEnv true v => mkEnviron (en_path e) v (en_fw e) (en_json e) (en_url e)
+  | _ => e
+  end.
+
+Definition environ_after_before (A : app) (e : environ) : environ :=
+  fold_left env_edit (flat_map h_muts (ran_prefix (ap_before A))) e.
+
+Definition serve_app_hooked (filt : fid -> str -> option (value * nat)) (A : app) (e : environ) : wsgi_res :=
+  serve_app filt A (environ_after_before A e).
+
 (* ------------------------------------------------------------------ *)
 (* correspondence interface                                            *)
 (* ------------------------------------------------------------------ *)
@@ -164,7 +181,8 @@ Definition corr_C03a (inp : list Z) : list Z :=
   match dec_list (dec_fspec fuel) r9 with Some (kspecs, _) =>
     let R := Router.exec_cmds Router.router0 cs in
     let A := mkApplication R bef aft (handler_of hspecs) (hook_of kspecs) (partial_of kspecs) (eh_of_table tbl) in
-    let e := with_app_name appname (mkEnviron path meth (negb (Z.eqb fw 0)) (negb (Z.eqb js 0)) url) in
+    let e := environ_after_before A
+               (with_app_name appname (mkEnviron path meth (negb (Z.eqb fw 0)) (negb (Z.eqb js 0)) url)) in
     let filt := Router.filt_of_table tab (length (Router.strip_sep (Router.req_path (en_path e)))) in
     enc_wsgi (cenv_of e) (ap_eh A) (program_of filt A e)
   | None => bad_input end | None => bad_input end | None => bad_input end | None => bad_input end
